@@ -13,6 +13,9 @@
   (a2) `C11_buildCells_structure`: the map before the sew phase: `1 + Σ kⱼ` darts; the j-th polygonal
        cell occupies `kⱼ` consecutive darts in a β1 cycle, all 2-free, and dart `d0ⱼ + i` carries the
        coordinates of the cell's i-th point (z dropped).
+  (a4) `C11_import_faces_and_gluing`: for EVERY input, a returned map has the darts, β0 and β1 of the
+       pre-sew map (one face per polygonal cell) and its 2-links only join corners whose sides run
+       between the same two point indices in opposite directions (soundness of the gluing).
   (a3) `C11_sew_keeps_equal_coordinates`: one `force_sew::<2>` whose two vertex merges average EQUAL
        coordinates leaves exactly these coordinates at the two new vertex ids (over `Rat`
        `(a + a) / 2 = a`; the float version is an assumption of the tie).
@@ -679,6 +682,230 @@ example : (okGet (importCells exPts exCells 7)).β 2 3 = 4 ∧ (okGet (importCel
 example : WF 3 (okGet (importCells exPts exCells 7)) :=
   C11_import_ok_WF _ _ _ _ (eq_ok_of_isOk (by decide +kernel))
 example : faceLists exCells = [[0, 1, 2], [0, 2, 3], [1, 4, 5, 2]] := by decide
+
+/-! ## (a4) the sew phase only adds 2-links, between darts filed under opposite keys -/
+
+/-- what the sew phase may do to a map: same darts, same β0 / β1, and every new 2-link joins two darts
+    that the buffer files under opposite keys -/
+structure SewnFrom (buf : Buf) (m m' : Map Val) : Prop where
+  n : m'.n = m.n
+  b01 : ∀ j d, j ≠ 2 → m'.β j d = m.β j d
+  b2 : ∀ d, m'.β 2 d ≠ m.β 2 d →
+    ∃ a b, ((a, b), d) ∈ buf ∧ ((b, a), m'.β 2 d) ∈ buf
+
+theorem sew2_topo {m m' : Map Val} {l r : Nat} {u : Unit}
+    (h : atomically (twoSew2 cfg0 m.n l r) m = (.ok u, m')) :
+    m'.n = m.n ∧ (∀ j d, j ≠ 2 → m'.β j d = m.β j d) ∧
+    (∀ d, m'.β 2 d ≠ m.β 2 d → (d = l ∧ m'.β 2 d = r) ∨ (d = r ∧ m'.β 2 d = l)) := by
+  have hrun := atomically_ok h
+  obtain ⟨m1, h1, st⟩ := C04.C04_twoSew2_topology cfg0 m.n l r m m' u hrun
+  obtain ⟨o1, o2, _, _, rfl⟩ := iLinkCore_ok h1
+  have hβ : ∀ j d, m'.β j d = ((m.setβ 2 l r).setβ 2 r l).β j d := fun j d => st.β j d
+  refine ⟨st.n, ?_, ?_⟩
+  · intro j d hj
+    rw [hβ, Map.β_setβ, Map.β_setβ]
+    have c1 : ¬ (2 = j ∧ r = d ∧ (m.setβ 2 l r).okβ 2 r = true) := fun hh => hj hh.1.symm
+    have c2 : ¬ (2 = j ∧ l = d ∧ m.okβ 2 l = true) := fun hh => hj hh.1.symm
+    rw [if_neg c1, if_neg c2]
+  · intro d hd
+    rw [hβ] at hd ⊢
+    rw [Map.β_setβ, Map.β_setβ] at hd ⊢
+    simp only [Map.okβ_setβ, o1, o2, and_true, true_and] at hd ⊢
+    by_cases c1 : r = d
+    · subst c1; simp
+    · rw [if_neg c1] at hd ⊢
+      by_cases c2 : l = d
+      · subst c2; simp
+      · rw [if_neg c2] at hd; exact absurd rfl hd
+
+theorem sewLoop_sewn : ∀ (fuel : Nat) (buf : Buf) (m m' : Map Val),
+    sewLoop fuel buf m = .ok m' → SewnFrom buf m m' := by
+  intro fuel
+  induction fuel with
+  | zero => intro buf m m' h; simp [sewLoop] at h
+  | succ f ih =>
+      intro buf m m' hs
+      unfold sewLoop at hs
+      split at hs
+      · simp at hs; subst hs
+        exact ⟨rfl, fun _ _ _ => rfl, fun d hd => absurd rfl hd⟩
+      · rename_i e he
+        have hem := bufMin_mem he
+        simp only at hs
+        split at hs
+        · have r := ih _ m m' hs
+          refine ⟨r.n, r.b01, fun d hd => ?_⟩
+          obtain ⟨a, b, h1, h2⟩ := r.b2 d hd
+          exact ⟨a, b, (mem_bufErase h1).1, (mem_bufErase h2).1⟩
+        · rename_i d1 hf
+          obtain ⟨e1, he1, hk1, hd1⟩ := bufFind_mem hf
+          obtain ⟨he1b, _⟩ := mem_bufErase he1
+          split at hs
+          · rename_i u m2 hsew
+            obtain ⟨n2, b012, b22⟩ := sew2_topo hsew
+            have r := ih _ m2 m' hs
+            refine ⟨by rw [r.n, n2], fun j d hj => by rw [r.b01 j d hj, b012 j d hj], fun d hd => ?_⟩
+            by_cases c : m'.β 2 d = m2.β 2 d
+            · -- the link of this round
+              have hd2 : m2.β 2 d ≠ m.β 2 d := by rw [← c]; exact hd
+              rw [c]
+              have hE : e = ((e.1.1, e.1.2), e.2) := rfl
+              have hE1 : e1 = ((e.1.2, e.1.1), d1) := by
+                rw [← hk1, ← hd1]
+              rcases b22 d hd2 with ⟨rfl, hr⟩ | ⟨rfl, hr⟩
+              · rw [hr]
+                exact ⟨e.1.1, e.1.2, by rw [← hE]; exact hem, by rw [← hE1]; exact he1b⟩
+              · rw [hr]
+                exact ⟨e.1.2, e.1.1, by rw [← hE1]; exact he1b, by rw [← hE]; exact hem⟩
+            · obtain ⟨a, b, h1, h2⟩ := r.b2 d c
+              exact ⟨a, b, (mem_bufErase (mem_bufErase h1).1).1, (mem_bufErase (mem_bufErase h2).1).1⟩
+          · simp at hs
+
+/-- dart `d` is corner `i` of one of the cells laid out from dart `s` on, and `k` is the pair of point
+    indices of the side leaving that corner -/
+def SideOf : Nat → List (List Nat) → Nat → Nat × Nat → Prop
+  | _, [], _, _ => False
+  | s, v :: vs, d, k =>
+      (∃ i, i < v.length ∧ d = s + i ∧ k = (v.getD i 0, v.getD ((i + 1) % v.length) 0)) ∨
+      SideOf (s + v.length) vs d k
+
+theorem corner_keys {fp : List Val} {vids : List Nat} {d0 i : Nat} {st st' : Map Val × Buf}
+    (hc : corner fp vids d0 i st = .ok st') :
+    ∀ e, e ∈ st'.2 → e ∈ st.2 ∨
+      (e.2 = d0 + i ∧ e.1 = (vids.getD i 0, vids.getD ((i + 1) % vids.length) 0)) := by
+  unfold corner at hc
+  simp only at hc
+  split at hc
+  · simp at hc
+  · split at hc
+    · split at hc
+      · simp only [Out.ok.injEq] at hc
+        subst hc
+        intro e he
+        rcases mem_bufInsert he with ⟨h1, _⟩ | rfl
+        · exact Or.inl h1
+        · exact Or.inr ⟨rfl, rfl⟩
+      · simp at hc
+    · simp at hc
+
+theorem corners_keys {fp : List Val} {vids : List Nat} {d0 : Nat} {buf0 : Buf} :
+    ∀ (len s : Nat) (st st' : Map Val × Buf), s + len = vids.length →
+      (∀ e, e ∈ st.2 → e ∈ buf0 ∨ ∃ i, i < vids.length ∧ e.2 = d0 + i ∧
+        e.1 = (vids.getD i 0, vids.getD ((i + 1) % vids.length) 0)) →
+      foldOut (corner fp vids d0) (List.range' s len) st = .ok st' →
+      ∀ e, e ∈ st'.2 → e ∈ buf0 ∨ ∃ i, i < vids.length ∧ e.2 = d0 + i ∧
+        e.1 = (vids.getD i 0, vids.getD ((i + 1) % vids.length) 0) := by
+  intro len
+  induction len with
+  | zero =>
+      intro s st st' _ h hf
+      simp [foldOut] at hf
+      subst hf
+      exact h
+  | succ len ih =>
+      intro s st st' hs h hf
+      rw [List.range'_succ] at hf
+      unfold foldOut at hf
+      match hx : corner fp vids d0 s st with
+      | .ok s1 =>
+          rw [hx] at hf
+          refine ih (s + 1) s1 st' (by omega) ?_ hf
+          intro e he
+          rcases corner_keys hx e he with h1 | ⟨h1, h2⟩
+          · exact h e h1
+          · exact Or.inr ⟨s, by omega, h1, h2⟩
+      | .err e => rw [hx] at hf; simp at hf
+      | .retry => rw [hx] at hf; simp at hf
+      | .panic => rw [hx] at hf; simp at hf
+
+theorem buildFace_keys {fp : List Val} {vids : List Nat} {st st' : Map Val × Buf}
+    (hb : buildFace fp vids st = .ok st') :
+    ∀ e, e ∈ st'.2 → e ∈ st.2 ∨ ∃ i, i < vids.length ∧ e.2 = st.1.n + i ∧
+      e.1 = (vids.getD i 0, vids.getD ((i + 1) % vids.length) 0) := by
+  unfold buildFace at hb
+  simp only at hb
+  rw [List.range_eq_range'] at hb
+  exact corners_keys (fp := fp) (vids := vids) (d0 := st.1.n) (buf0 := st.2) vids.length 0
+    ((st.1.addFreeDarts vids.length).2, st.2) st' (by omega) (fun e he => Or.inl he) hb
+
+theorem cells_keys {fp : List Val} :
+    ∀ (cells : List VCell) (st st' : Map Val × Buf), Inv st.1.n st →
+      foldOut (cellStep fp) cells st = .ok st' →
+      ∀ e, e ∈ st'.2 → e ∈ st.2 ∨ SideOf st.1.n (faceLists cells) e.2 e.1 := by
+  intro cells
+  induction cells with
+  | nil =>
+      intro st st' _ hf
+      simp [foldOut] at hf
+      subst hf
+      exact fun e he => Or.inl he
+  | cons c cs ih =>
+      intro st st' hinv hf
+      unfold foldOut at hf
+      match hx : cellStep fp c st with
+      | .ok s1 =>
+          rw [hx] at hf
+          have hinv1 := cellStep_inv hinv hx
+          rcases cellStep_cases hx with ⟨hty, rfl⟩ | ⟨hty, hb⟩
+          · have : faceLists (c :: cs) = faceLists cs := by
+              simp [faceLists, List.filterMap_cons, hty]
+            rw [this]
+            exact ih s1 st' hinv hf
+          · have hfl : faceLists (c :: cs) = c.vids :: faceLists cs := by
+              simp [faceLists, List.filterMap_cons, hty]
+            rw [hfl]
+            obtain ⟨n1, _, _, _⟩ := buildFace_spec hinv.wf hb
+            intro e he
+            rcases ih s1 st' hinv1 hf e he with h1 | h1
+            · rcases buildFace_keys hb e h1 with h2 | ⟨i, hi, h2, h3⟩
+              · exact Or.inl h2
+              · exact Or.inr (Or.inl ⟨i, hi, h2, h3⟩)
+            · rw [n1] at h1
+              exact Or.inr (Or.inr h1)
+      | .err e => rw [hx] at hf; simp at hf
+      | .retry => rw [hx] at hf; simp at hf
+      | .panic => rw [hx] at hf; simp at hf
+
+/-- **C11 (a4)**, for EVERY input: a map returned by the import has exactly the darts, the β0 and the β1
+    of the pre-sew map — so, with `C11_buildCells_structure`, ONE FACE PER polygonal CELL, on
+    consecutive darts in the order of the cell's points — and its 2-links are SOUND: `β2 d = e ≠ 0` only
+    if `d` is a corner whose side runs from point `a` to point `b` and `e` a corner whose side runs from
+    `b` to `a` (sides traversed in opposite directions).  Completeness (every such pair is glued) holds
+    for conforming lists only and is not proved (oracle). -/
+theorem C11_import_faces_and_gluing (pts : List Val) (cells : List VCell) (mask : Nat) (m : Map Val)
+    (h : importCells pts cells mask = .ok m) :
+    ∃ m0 buf, buildCells pts cells = .ok (m0, buf) ∧ m.n = m0.n ∧
+      (∀ j d, j ≠ 2 → m.β j d = m0.β j d) ∧
+      ∀ d, m.β 2 d ≠ 0 → ∃ a b, SideOf 1 (faceLists cells) d (a, b) ∧
+        SideOf 1 (faceLists cells) (m.β 2 d) (b, a) := by
+  unfold importCells at h
+  match hb : buildCells pts cells with
+  | .ok (m0, buf) =>
+      rw [hb] at h
+      simp only at h
+      have r := sewLoop_sewn _ buf m0 m h
+      obtain ⟨_, hb2, _⟩ := C11_buildCells_structure pts cells m0 buf hb
+      have hk := cells_keys cells (emptyMap, []) (m0, buf) inv_empty (by unfold buildCells at hb; exact hb)
+      refine ⟨m0, buf, rfl, r.n, r.b01, fun d hd => ?_⟩
+      obtain ⟨a, b, h1, h2⟩ := r.b2 d (by rw [hb2]; exact hd)
+      refine ⟨a, b, ?_, ?_⟩
+      · rcases hk _ h1 with h' | h'
+        · simp at h'
+        · exact h'
+      · rcases hk _ h2 with h' | h'
+        · simp at h'
+        · exact h'
+  | .err e => rw [hb] at h; simp at h
+  | .retry => rw [hb] at h; simp at h
+  | .panic => rw [hb] at h; simp at h
+
+/-- non-vacuity: in the import of `exCells`, dart 3 (side 2 → 0 of the first triangle) is glued with
+    dart 4 (side 0 → 2 of the second one) -/
+example : SideOf 1 (faceLists exCells) 3 (2, 0) ∧ SideOf 1 (faceLists exCells) 4 (0, 2) := by
+  constructor
+  · exact Or.inl ⟨2, by decide, rfl, rfl⟩
+  · exact Or.inr (Or.inl ⟨0, by decide, rfl, rfl⟩)
+
 
 /-! ## (a3) a 2-sew that merges equal coordinates keeps them -/
 
